@@ -33,7 +33,7 @@ REAL = ['glue.core.data (get_data/get_mask under views)', 'glue.core.component',
         'glue.core.component_link', 'glue.core.coordinates', 'glue.utils.array']
 STUB = ['uuid and identity-hash streams']
 ASSUMPTIONS = ['glue is its own reference for the full array (view consistency is decided, not the meaning of the full result)',
-               'generator guards exclude the (attribute kind, view kind) pairs of the open findings', 'sampling, not proof']
+               'sampling, not proof']
 PROBES = ['value_view', 'mask_view', 'indexed_values', 'indexed_mask', 'indexed_stat', 'indexed_hist', 'indexed_after_index_change',
           'indexed_after_parent_update', 'view_after_other_view_read', 'world_attr_view', 'categorical_view', 'linked_attr_view', 'derived_attr_view',
           'boolmask_view', 'intarray_view', 'short_tuple_view', 'member_state_compared', 'pixel_axes_linked_permuted', 'indexed_with_selection']
@@ -504,9 +504,14 @@ def execute(case, res):
                 exp = float(f(fin)) if fin.size else float('nan')
                 try:
                     got = float(x.compute_statistic(op[5], mains[j], **kw))
-                except (IncompatibleAttribute, IndexError, ValueError):
+                except IncompatibleAttribute:
                     if kw:
-                        continue        # what the parent can evaluate under a view is C04's other subject (open findings)
+                        continue        # the selection is not evaluable on the reduced dataset (its attributes are not all kept)
+                    raise
+                except (IndexError, ValueError, AttributeError, TypeError) as e:
+                    if kw:              # the parent evaluated this selection in full: the reduced dataset must cope with the view
+                        raise Violation('C04/indexed-statistic-raises/%s' % type(e).__name__, 'indices %s %s selection %s: %s' % (
+                            x.indices, op[5], type(sel[0]).__name__, str(e)[:200]))
                     raise
                 res.nchecks += 1
                 res.probe('indexed_stat')
@@ -533,9 +538,10 @@ def execute(case, res):
                     if kw:
                         continue
                     raise Violation('C04/indexed-histogram-raises', 'indices %s: IncompatibleAttribute %s' % (x.indices, e))
-                except (IndexError, ValueError):
+                except (IndexError, ValueError, AttributeError, TypeError) as e:
                     if kw:
-                        continue
+                        raise Violation('C04/indexed-histogram-raises/%s' % type(e).__name__, 'indices %s selection %s: %s' % (
+                            x.indices, type(sel[0]).__name__, str(e)[:200]))
                     raise
                 res.nchecks += 1
                 res.probe('indexed_hist')
